@@ -21,7 +21,7 @@ META = {
                     "absolute tolerance 1e-9 on tail probabilities (the implementation's 1-cdf form has absolute accuracy)"],
     "deciding": ["poisson_evaluations._number_test_ndarray", "binomial_evaluations._nbd_number_test_ndarray", "stats.get_quantiles"],
 }
-META["added"] = "Added: re-scaling histories with total reads in between, array-valued scale factors (per cell, per magnitude bin, full table), observed counts above 16384 through the public wrappers, in-place mutation of yielded catalogs before the catalog N-test. forecasts streamed from files with placeholder rows / id gaps, NBD variance ratios 1+1e-9..1e9. catalogs with events outside the forecast's magnitude range, scaled T-test before the N-test, reference total snapshotted before any library call."
+META["added"] = "Added: re-scaling histories with total reads in between, array-valued scale factors (per cell, per magnitude bin, full table), observed counts above 16384 through the public wrappers, in-place mutation of yielded catalogs before the catalog N-test. forecasts streamed from files with placeholder rows / id gaps, NBD variance ratios 1+1e-9..1e9. catalogs with events outside the forecast's magnitude range, scaled T-test before the N-test, reference total snapshotted before any library call. filtered lazy forecasts after earlier passes, integer-dtype rate tables."
 MANIFEST = {
     "technique": "runtime post-conditions on the real number-test primitives and public tests vs independent incomplete-gamma/beta and explicit pmf-sum oracles; identity and monotonicity checkers over a parameter grid",
     "level_text": "Each call of the Poisson / NBD / empirical number-test primitives (2e4 quick, 1e6 thorough grid points plus end-to-end runs through the three public tests on generated forecasts and catalogs, including scaled forecasts) is checked against tails computed by incomplete gamma/beta functions and explicit pmf summation; delta1+delta2 = 1+pmf and monotonicity in the mean are checked across the grid.",
@@ -181,7 +181,7 @@ def ex_emp(ctx, sizes, n):
     ctx.call(stats.get_quantiles, numpy.asarray(sizes), n)
 
 
-def _small_setup(total, n_obs, rng, scale=None):
+def _small_setup(total, n_obs, rng, scale=None, int_rates=False):
     mags = fixtures.mag_bins("4.95", "0.1", 3)
     reg = fixtures.region(2, 2, 0.1, 10.0, 20.0, magnitudes=mags)
     w = rng.uniform(0.1, 1.0, (4, 3))
@@ -190,6 +190,12 @@ def _small_setup(total, n_obs, rng, scale=None):
     if scale is not None:
         fore = fixtures.gridded_forecast(data / scale, reg, mags)
         fore.scale(scale)
+    if int_rates:
+        # a rate table of INTEGER dtype (counts per bin) scaled by a fraction: the rates in force are table * factor, not truncated
+        from csep.core.forecasts import GriddedForecast
+        idata = rng.integers(1, 13, (4, 3)).astype(numpy.int64)
+        fore = GriddedForecast(start_time=fore.start_time, end_time=fore.end_time, data=idata, region=reg, magnitudes=mags, name="int")
+        fore.scale(float(rng.choice([0.5, 0.3, 0.25])))
     cells = rng.integers(0, 4, n_obs)
     lons, lats = fixtures.events_in_cells(reg, cells, rng)
     # n_obs is the number of events IN THE CATALOG: some of them lie below the forecast's lowest magnitude edge or far above its last one
@@ -200,7 +206,7 @@ def _small_setup(total, n_obs, rng, scale=None):
 def ex_e2e_poisson(ctx, total, n_obs, scale=None, seed=0, rescale_history=None):
     import csep.core.poisson_evaluations as pe
     rng = numpy.random.default_rng([seed, 7])
-    fore, cat = _small_setup(total, n_obs, rng, scale)
+    fore, cat = _small_setup(total, n_obs, rng, scale, int_rates=(seed % 7 == 5 and not rescale_history))
     base = numpy.array(fore._data, dtype=float, copy=True)       # the stored table as built: nothing below may change it
     if rescale_history:
         # history on one forecast object: the total is read (event_count / an N-test), then the same object is re-scaled
@@ -281,8 +287,13 @@ def ex_e2e_catalog(ctx, sizes, n_obs, seed=0, pre_iterations=0, mutate=False, so
         tmpd = scratch_dir("c07-")
         path = os.path.join(tmpd, "fc.csv")
         rows = [[(e[0].decode(), int(e[1]), float(e[2]), float(e[3]), float(e[4]), float(e[5])) for e in c.catalog.tolist()] for c in cats]
-        c12.write_file(path, rows, [source == "file"] * len(rows), bool(seed % 2), "frac")
-        cf = csep.load_catalog_forecast(path, region=reg, store=bool(seed % 3), name="cf")
+        kwf = {}
+        if source == "file-filtered":
+            # the file holds extra events below the magnitude threshold; the forecast is configured to filter them on EVERY pass (store=False)
+            rows = [r_ + [("x%d_%d" % (j_, q_), e_[1] + 1, e_[2], e_[3], e_[4], 4.2) for q_, e_ in enumerate(r_[:2])] for j_, r_ in enumerate(rows)]
+            kwf = {"filters": ["magnitude >= 4.95"], "apply_filters": True}
+        c12.write_file(path, rows, [source != "file-gaps"] * len(rows), bool(seed % 2), "frac")
+        cf = csep.load_catalog_forecast(path, region=reg, store=(bool(seed % 3) and source != "file-filtered"), name="cf", **kwf)
     cells = rng.integers(0, 4, n_obs)
     lons, lats = fixtures.events_in_cells(reg, cells, rng)
     obs = fixtures.catalog(lons, lats, rng.choice([5.0, 5.1], n_obs), region=reg)
@@ -405,8 +416,8 @@ def run(ctx):
         J = int(r.integers(1, 40))
         sizes = r.poisson(r.uniform(0.3, 8), J)
         nob = int(r.choice([0, int(sizes.min()), int(sizes.max()), int(sizes[0]), int(sizes.max()) + 1, int(r.integers(0, 12))]))
-        ex_e2e_catalog(ctx, sizes.tolist(), nob, seed=j, pre_iterations=int(j % 4 == 1) + int(j % 8 == 5), mutate=bool(j % 5 == 2),
-                       source="memory" if j % 5 == 2 else ["memory", "file", "file-gaps"][j % 3])
+        ex_e2e_catalog(ctx, sizes.tolist(), nob, seed=j, pre_iterations=int(j % 4 == 1) + int(j % 8 == 5) + int(j % 8 == 7), mutate=bool(j % 5 == 2),
+                       source="memory" if j % 5 == 2 else ["memory", "file", "file-gaps", "file-filtered"][j % 4])
         ctx.count(1)
         if numpy.any(sizes == nob):
             ctx.nt(digest(("emp", sizes.tolist(), nob)))
